@@ -266,6 +266,19 @@ def run_case(R, level, op, args, community="public", ctx_name=b"", ctx_engine=b"
         from puresnmp import Client as _Client
 
         c = _Client("192.0.2.1", rig.initial_credentials(via, community), sender=w.seam, **ckw)
+        if args.get("prelude"):
+            # the client TALKS under its first credentials (the device need not accept
+            # them) before it is switched: whatever it remembered from that exchange must
+            # not show in the datagrams sent under the intended credentials
+            _budget = w.seam.budget
+            w.seam.budget = 12
+            try:
+                rig.outcome(lambda: drive(c.get(OID((1, 3, 6, 1, 2, 1, 1, 1, 0)))))
+            except rig.BudgetExceeded:
+                pass
+            w.seam.reset(budget=_budget)
+            w.agent.requests.clear()
+            R.mon["clients_that_talked_before_they_were_switched"] += 1
         if via[0] == "configure":
             c.configure(credentials=w.creds)
     case["via"] = list(via) if via else None
@@ -485,6 +498,12 @@ def run(R):
                 # same community string / same user and passwords: only the family differs
                 other = {"v1": "v2c", "v2c": "v1"}.get(level) or rng.choice([lv for lv in rig.V3_LEVELS if lv != level])
                 via = (via[0], other, "same")
+        if i % 5 == 1:
+            # community clients: the SAME family under another community first, and the
+            # client has talked before it is switched
+            if not level.startswith("v3"):
+                via = (("configure", "reconfigure")[(i // 5) % 2], level)
+                args["prelude"] = True
         if i % 7 == 3:
             args["refused_configure"] = rng.choice([lv for lv in ("v1", "v2c", "v3-noauth", "v3-md5", "v3-sha1-priv") if lv != level])
         run_case(R, level, op, args, community, ctx_name, ctx_engine, rid, rid_patched, via=via)
